@@ -271,3 +271,70 @@ def origins(ev, t, crate="shred"):
 
     go(t)
     return out
+
+
+def extend_like(ev, L):
+    """(target collection, 'extend' | 'set-extend') if the loop is a full traversal whose every step appends the current element
+    to one collection - or, for 'set-extend', leaves it out exactly when that collection already holds an equal element
+    (`if !list.contains(&x) { list.push(x) }`).  None otherwise."""
+    from .sem import PseudoCallee
+    from .shared import SHAPE_MUTATORS
+    if L.kind in ("while",) or L.source is None or L.stages or L.elem is None or not is_full(L):
+        return None
+    target = None
+    mode = "extend"
+    n = 0
+    for it in L.iters:
+        if it.end != "continue":
+            continue
+        n += 1
+        pushes = [x for x in it.path.events if x[0] == "call" and not x[2].local and x[2].name == "push" and len(x[3]) == 2 and strip(ev, x[3][1]) == L.elem]
+        muts = [x for x in it.path.events if x[0] == "call" and not x[2].local and x[2].name in SHAPE_MUTATORS and x not in pushes]
+        loops = [x for x in it.path.events if x[0] == "loop"]
+        if muts or [x for x in loops if x[1].kind != "model:any"] or len(loops) > 1 or len(pushes) > 1:
+            return None
+        t = None
+        if loops:
+            M, idx = loops[0][1], loops[0][2]
+            if idx is None or M.source is None or M.stages:
+                return None
+            mway = M.iters[idx]
+            eqs = [(ct, cv) for (ct, cv, cn, cs) in mway.path.conds if is_call(ev, ct, "eq") and len(ct[2]) == 2
+                   and set([strip(ev, ct[2][0]), strip(ev, ct[2][1])]) == set([M.elem, L.elem])]
+            if mway.end == "done" and len(pushes) == 1:
+                t = strip(ev, M.source)
+                if strip(ev, pushes[0][3][0]) != t:
+                    return None
+            elif mway.end == "break" and not pushes and eqs and all(cv == 1 for _, cv in eqs):
+                t = strip(ev, M.source)
+            else:
+                return None
+            mode = "set-extend"
+        elif len(pushes) == 1:
+            t = strip(ev, pushes[0][3][0])
+        else:
+            return None
+        if target is not None and t != target:
+            return None
+        target = t
+    if not n or target is None:
+        return None
+    return target, mode
+
+
+def fold_extend_loops(ev, events):
+    """The events with every loop that merely appends its source to a collection replaced by the `extend` call it stands for
+    (value None; the callee carries `.mode`)."""
+    from .sem import PseudoCallee
+    out = []
+    for x in events:
+        if x[0] == "loop":
+            r = extend_like(ev, x[1])
+            if r is not None:
+                c = PseudoCallee("extend", path="std::iter::Extend::extend")
+                c.mode = r[1]
+                c.local = False
+                out.append(("call", x[1].site, c, (r[0], x[1].source), None))
+                continue
+        out.append(x)
+    return out
